@@ -241,7 +241,10 @@ def gen(t, tier):
           'items': [{'yields': t.randint(0, 3), 'fail': bool(t.chance(0.2)), 'none': bool(t.chance(0.15))} for _ in range(n)],
           'busy_threads': t.pick([0, 0, 0, 40, 300, 2000]),
           # the operating system refuses to start the k-th worker thread of the first call (thread / pid limit reached)
-          'start_fail': t.pick([None] * 10 + [0, 0, 1, 2])}
+          'start_fail': t.pick([None] * 10 + [0, 0, 1, 2]),
+          # what kind of callable the caller hands in: a plain function, a functools.partial, an object with __call__ or a bound
+          # method (only the first has a __name__)
+          'callable': t.pick(['function', 'function', 'function', 'partial', 'object', 'method'])}
     if api.startswith('pool.') and t.chance(0.3):
         # the same pool object is used for a second call (after the first one returned or raised)
         m = t.randint(2, 5)
@@ -383,6 +386,20 @@ def run(sc, tape):
             if st['items'][i]['fail']:
                 raise st['excs'][i]
             return st['values'][i]
+        kind = sc.get('callable', 'function')
+        if kind == 'partial':
+            import functools
+            return functools.partial(w_)
+        if kind == 'object':
+            class Work(object):
+                def __call__(self, i, tag=None):
+                    return w_(i, tag)
+            return Work()
+        if kind == 'method':
+            class Worker(object):
+                def do(self, i, tag=None):
+                    return w_(i, tag)
+            return Worker().do
         return w_
 
     def _consume_like_a_call_site(pool, it, got):
@@ -522,6 +539,8 @@ def run(sc, tape):
         probes['pool_used_twice'] = 1
     if start_state['fired']:
         probes['thread_start_refused'] = 1
+    if sc.get('callable', 'function') != 'function':
+        probes['callable_' + sc['callable']] = 1
     if probes_gc[0]:
         probes['gc_runs_during_second_call'] = probes_gc[0]
     if outs and outs[0].get('abandoned'):
